@@ -9,11 +9,14 @@
                     failure code satisfies Q                       (Proofs/LoopBounds.v, C05_allout_meaning)
      nopanic c      c <> 3   (codes 1 = explicit word list exhausted, 2 = fuel of the model: see C05)
      dyR q          real value of the dyadic parameter q = (m, e)
-   The float program deviates from the ideal model at isolated draws (findings F6, F16 for Zipf).   *)
+   All seven discrete samplers are covered: StandardGeometric, Geometric, Zeta, Zipf, Poisson (Knuth and
+   PD), Binomial (constant, Poisson limit, BINV, BTPE, flip), Hypergeometric (HIN, H2PE, reflections).
+   The float program deviates from the ideal model at isolated draws (findings F6, F16 for Zipf, F9 for
+   Binomial(u64::MAX, 0.5)); those are decided on the real code by the lattice oracle of this check.   *)
 From Coq Require Import Reals ZArith List Lra Lia.
 From Interval Require Import Xreal.
 From RD Require Import Base.Expr Base.Run Model.Sampler Model.Continuous Model.Discrete
-  Proofs.LawsInvCdf Proofs.LoopBounds Proofs.PmfBinomial Proofs.SupportDiscrete.
+  Proofs.LawsInvCdf Proofs.LoopBounds Proofs.PmfBinomial Proofs.SupportDiscrete Proofs.SupportHyper.
 Import ListNotations.
 Open Scope Z_scope.
 
@@ -59,6 +62,47 @@ Theorem C03_binv_support : forall (n : nat) (p : R), (0 < p < 1)%R -> forall fue
   allout (fun q => 0 <= fst q <= Z.of_nat n) nopanic (binv_outer fuel r a s ws).
 Proof. exact binv_outer_le_n. Qed.
 
+(* Binomial, BTPE (n p >= 10 after the flip to p <= 1/2): the two f64_to_u64 assertions (set-up and
+   regions 1-3), the saturating cast of region 4 and the u64 subtraction n - y of step 5.3 are safe:
+   p1 >= 2.5, x_l = m - floor(2.195 sqrt(npq) - 4.6 q) >= 0, x_r <= n - 1, lambda_l > 0 *)
+Theorem C03_btpe_support : forall n pe p flipped ws, evalX pe = Xreal p -> (0 < p <= 1 / 2)%R -> (10 <= IZR n * p)%R ->
+  0 <= n <= U64MAX -> Forall word ws ->
+  allout (fun q => 0 <= fst q <= n) nopanic (btpe n pe flipped ws).
+Proof. exact btpe_support. Qed.
+
+(* Binomial(n, p), every u64 n and every p in [0, 1]: constant, Poisson limit (1 - p == 1.0), BINV and
+   BTPE, with and without the p > 1/2 flip *)
+Theorem C03_binomial_support : forall n p ws, 0 <= n <= U64MAX -> (0 <= dyR p <= 1)%R -> Forall word ws ->
+  allout (fun q => 0 <= fst q <= n) nopanic (binomial n p ws).
+Proof. exact binomial_support. Qed.
+
+(* Hypergeometric, the H2PE branch on reduced parameters (n1 <= n2, 2k <= N, mode m >= 10): region 1
+   (which has no range test in the code) stays inside [0, min(n1,k)], so the u64 products of step 4.1
+   cannot underflow; lambda_l, lambda_r > 0 and p3 >= 0 whenever they are defined *)
+Theorem C03_h2pe_branch_support : forall n n1 n2 k m ws,
+  n1 + n2 = n -> 0 <= n1 <= n2 -> 0 <= k -> 2 * k <= n -> 10 <= m ->
+  (IZR m <= (IZR k + 1) * (IZR n1 + 1) / (IZR n + 2) < IZR m + 1)%R -> Forall word ws ->
+  allout (fun q => 0 <= fst q <= Z.min n1 k) nopanic (h2pe_branch n n1 n2 k m ws).
+Proof. exact h2pe_branch_support. Qed.
+
+(* Hypergeometric(N, K, n), K <= N, n <= N, N < 2^51 (beyond: failure code 4, outside the model): HIN
+   and H2PE under all four combinations of the symmetry reductions *)
+Theorem C03_hypergeometric_support : forall N K ns ws, 0 <= K <= N -> 0 <= ns <= N -> Forall word ws ->
+  allout (fun q => Z.max 0 (ns + K - N) <= fst q <= Z.min ns K) nopanic (hypergeometric N K ns ws).
+Proof. exact hypergeometric_support. Qed.
+
+(* the model's `hypergeometric` is literally the composition these theorems are about *)
+Theorem C03_hypergeometric_unfold : forall N K ns,
+  hypergeometric N K ns =
+  if 2 ^ 51 <=? N then sfail 4 else
+  let without := N - K in
+  let '(sign_x, offset_x, n1, n2) :=
+    if without <? K then (-1, ns, without, K) else (1, 0, K, without) in
+  let '(k, offset_x, sign_x) :=
+    if ns <=? N / 2 then (ns, offset_x, sign_x) else (N - ns, offset_x + n1 * sign_x, - sign_x) in
+  hyper_core N n1 n2 k sign_x offset_x.
+Proof. exact hypergeometric_unfold. Qed.
+
 (* ---- the hypotheses are satisfiable and the statements are not vacuous: concrete runs ---------- *)
 Example C03_ex_std_geometric : evals (std_geometric [1; 7]) (63, [7]) /\ Forall word [1; 7].
 Proof. split; [vm_compute; constructor|]. repeat constructor; discriminate. Qed.
@@ -82,3 +126,8 @@ Print Assumptions C03_zeta_support.
 Print Assumptions C03_zipf_support.
 Print Assumptions C03_poisson_support.
 Print Assumptions C03_binv_support.
+Print Assumptions C03_btpe_support.
+Print Assumptions C03_binomial_support.
+Print Assumptions C03_h2pe_branch_support.
+Print Assumptions C03_hypergeometric_support.
+Print Assumptions C03_hypergeometric_unfold.
